@@ -344,13 +344,24 @@ func AnalyzeLoop(P *Program, fn *ssa.Function, opts *AnalyzeOpts) (*LoopStep, er
 			back = append(back, p)
 		}
 	}
-	if len(back) != 1 {
-		return nil, fmt.Errorf("loop of %s has %d live back edges", fn, len(back))
+	if len(back) == 0 {
+		return nil, fmt.Errorf("loop of %s has no live back edge", fn)
 	}
-	for _, phi := range ls.Phis {
-		ls.Next[phi] = f.val(phi.Edges[predIndex(H, back[0])])
+	// several back edges (continue statements): the body is re-entered when
+	// one of them is taken; the edge conditions are mutually exclusive, so the
+	// next value of a header phi is the mux over them
+	ls.Cond = U.B0
+	for i := len(back) - 1; i >= 0; i-- {
+		ec := band(f.chain(back[i], H), f.bc[edgeKey{back[i].Index, H.Index}])
+		for _, phi := range ls.Phis {
+			v := f.val(phi.Edges[predIndex(H, back[i])])
+			if prev, ok := ls.Next[phi]; ok {
+				v = in.muxVal(ec, v, prev)
+			}
+			ls.Next[phi] = v
+		}
+		ls.Cond = bor(ls.Cond, ec)
 	}
-	ls.Cond = band(f.chain(back[0], H), f.bc[edgeKey{back[0].Index, H.Index}])
 	ret, out := f.mergeReturns(hst)
 	ls.Ret = ret
 	ls.Sum = &Summary{Fn: fn, Params: params, Ret: ret, Out: out, Events: in.events, in: in, Init: newState()}
@@ -404,7 +415,6 @@ func NewSession(P *Program, initPkgs ...string) *Session {
 	}
 	return &Session{in: in, base: st, fail: in.Fail}
 }
-
 
 // Parameter names are how checks refer to inputs (argument tables, names of
 // input objects in expected values). To keep that independent of the names in
